@@ -888,6 +888,12 @@ class Engine:
             kwargs["types"] = [POOL[t] for t in types]
         factory = self.make_factory(fid, cmd["is_async"], annotate, cmd.get("async_kind", "def") if annotate is None else "def",
                                     partial=bool(cmd.get("partial")), pclass=cmd.get("pclass"))
+        class_as_factory = types == "missing" and cmd.get("pclass") is not None and fid % 2 == 0
+        if class_as_factory:
+            # the callback is a class (calling it makes the resource) and no types are given: a class has no return annotation to
+            # take the types from, so this registration must fail like that of any other un-annotated callable
+            factory = POOL.classes[cmd["pclass"]]
+            self.inc("factory_callbacks_that_are_classes_without_types")
         if cmd.get("pclass") is not None:
             self.inc("factories_building_an_instance_of_a_pool_class")
         if cmd.get("partial"):
@@ -913,6 +919,13 @@ class Engine:
             kwargs["types"].clear()  # the caller reuses its list afterwards
             kwargs["types"].append(object)
         self.raised_and_dispatched(observed, cmd)
+        if class_as_factory and observed[0] == "ok":
+            # (a tree that takes the class itself as the type of what it makes does nothing the statement forbids: only a call
+            # that *raises* must leave no trace.  The model has no such feature, so this history simply ends here.)
+            self.inc("class_factories_without_types_accepted")
+            self.dispatches.clear()
+            self.fatal = True
+            return []
         expected, events = self.model.add_factory(cid, fid, cmd["name"], types, cmd["desc"], cmd["is_async"])
         self.check_outcome("add-factory", expected, observed, cmd)
         if expected[0] == "exc":
